@@ -886,7 +886,7 @@ var _ = binary.LittleEndian
 func init() {
 	harness.Register(&harness.Prop{
 		ID: "C18", Engine: "E4", Level: "exploration", Gen: genC18, Exec: execC18,
-		Runs:      map[string]int{"quick": 6000, "thorough": 200000},
+		Runs:      map[string]int{"quick": 10000, "thorough": 400000},
 		Rule:      "one simulated run = one testing/synctest bubble in a -race binary; tasks (caller goroutines + the library's own ticker/monitor goroutines) are serialised by seeded fake-clock delays at yield points (operation boundaries, every I/O call through the H3/H4 seams, the H2 sites in the incremental/smart rebalancers and the selector, timer firings), which creates no happens-before edge, so the race detector reports every unsynchronised conflicting access pair that occurs; three workload kinds: (a) 2-5 independent handles (readers on shared files, writers on own files) whose results must equal the sequential ones, (b) one foreground task on a WritableBTreeV2 (insert/lazy delete/search/progress/stats/enable/stop, stop twice, enable after stop) against the incremental ticker at fake intervals of 1-8 microseconds, (c) 1-4 caller tasks on one SmartRebalancer (Record/Evaluate/GetStats/GetMetrics/Start/Stop) against its monitor goroutine, with an adapter over the real B-tree so mode changes really start and stop the incremental loop; oracles: no race report with a library frame, no panic, every Stop returns within the step budget, no library goroutine after the last Stop, results equal to sequential; non-trivial = a background event between two foreground events, or >= 2 switches between foreground tasks; distinct interleavings = distinct hashes of the (task, site) sequence",
 		Technique: "deterministic simulation: seeded fake-time scheduler inside testing/synctest under the race detector",
 		Assumptions: []string{"the B-tree writer API is documented as not thread-safe: exactly one foreground task drives it; several callers are used only where the code promises thread-safety (smart rebalancer) or independence (distinct handles)",
